@@ -1,11 +1,16 @@
 (* C19 — nsq_to_file never acknowledges what it has not safely written.
    Property theorems only (proofs in proofs/FileLoggerProofs.v). *)
 From Coq Require Import List ZArith NArith Bool.
-From NSQV Require Import model.Judge model.FileOS model.FileLogger proofs.FileOSProofs proofs.FileLoggerProofs proofs.FileLoggerUnique proofs.FileMonitorProofs.
+From NSQV Require Import model.Judge model.FileOS model.FileLogger proofs.FileOSProofs proofs.FileLoggerProofs proofs.FileLoggerUnique proofs.FileMonitorProofs proofs.FileFaultProofs.
 Import ListNotations.
 Open Scope N_scope.
 
-(* For every configuration (gzip, rotate-size, rotate-interval, work-dir, skip-empty-files,
+(* A configuration [c : cfg] includes the fault schedule (which write / gzip-close write /
+   fsync / close / link / unlink / open of the logger fails with an error, and how much of a
+   line a failing write left in the file): "for every configuration" below is also "for
+   every set of failing system calls".
+
+   For every configuration (gzip, rotate-size, rotate-interval, work-dir, skip-empty-files,
    max-in-flight, file name format, any datetime rendering function), every set of
    pre-existing files, every history of events (messages with arbitrary clock readings and
    starvation flags, sync ticks, HUP, TERM, consumer stop) and every instant of the run
@@ -47,13 +52,26 @@ Theorem C19_trace_is_the_run : forall c fs0 es,
 Proof. exact fs_is_replay. Qed.
 Print Assumptions C19_trace_is_the_run.
 
+(* After a failed system call of the write path (write of a message, write inside
+   gzipWriter.Close, fsync, close, link, unlink, open: [OFail] in the trace) no message is
+   finished any more, and the logger is not running: it exits fatally instead.  With
+   C19_fin_after_sync (a failed fsync makes nothing durable): a message whose bytes were not
+   written and fsynced successfully is never finished. *)
+Theorem C19_no_fin_after_failed_call : forall c fs0 es p w k q,
+  trace (run c fs0 es) = p ++ OFail w k :: q ->
+  fins q = [] /\ running (run c fs0 es) = false.
+Proof. exact no_fin_after_fail. Qed.
+Print Assumptions C19_no_fin_after_failed_call.
+
 (* "In exactly one file": at every event boundary of every run in which the delivered
    message ids are distinct, over pre-existing files with distinct names (and no ghost
    tags), every finished message's line is in the durable part of a file, and no other
    file name holds a chunk written for that message (durable or not).  (Inside Close the
    link/unlink hand-off holds the content under two names for one instant; see
-   C19_fin_after_sync for all instants.) *)
-Theorem C19_exactly_one_file : forall c fs0 es m,
+   C19_fin_after_sync for all instants.  For the same reason the unlink(2) of the hand-off
+   must not fail: then the logger exits with the file under both names,
+   C19_ex_two_names_after_failed_unlink.) *)
+Theorem C19_exactly_one_file : forall c fs0 es m, (forall n, fault_at c FUnlink n = false) ->
   NoDup (keys fs0) -> fs_tags fs0 = [] -> NoDup (flat_map ev_id es) ->
   In m (finished (run c fs0 es)) ->
   exists k f, lookup (fs (run c fs0 es)) k = Some f /\ In (line m) (f_dur f) /\
@@ -62,7 +80,7 @@ Proof. exact exactly_one_file. Qed.
 Print Assumptions C19_exactly_one_file.
 
 (* ... and no message is written twice anywhere *)
-Theorem C19_tags_unique : forall c fs0 es,
+Theorem C19_tags_unique : forall c fs0 es, (forall n, fault_at c FUnlink n = false) ->
   NoDup (keys fs0) -> fs_tags fs0 = [] -> NoDup (flat_map ev_id es) ->
   NoDup (keys (fs (run c fs0 es))) /\ NoDup (alltags (run c fs0 es)).
 Proof. exact tags_unique. Qed.
@@ -77,7 +95,10 @@ Print Assumptions C19_monitor_accepts_model.
 
 (* ---------- non-vacuity ---------- *)
 Definition ex_fmt : bytes := [116;60;82;69;86;62;46;108;111;103;46;103;122].   (* "t<REV>.log.gz" *)
-Definition ex_cfg : cfg := mkCfg true 0 0 true false 2 ex_fmt (fun _ => []).
+Definition ex_cfg : cfg := mkCfg true 0 0 true false 2 ex_fmt (fun _ => []) (fun _ _ => false) (fun _ => O).
+(* the same with one failing system call: the n-th of kind w *)
+Definition ex_cfg_f (w : fkind) (n : N) : cfg :=
+  mkCfg true 0 0 true false 2 ex_fmt (fun _ => []) (fun w' n' => fkind_eqb w w' && N.eqb n n') (fun _ => O).
 Definition ex_name (r : N) : bytes := with_rev ex_fmt r.
 Definition ex_pre : fsT := [((DOut, ex_name 0), mkFile [(None, [111;108;100;10])] [])].
 Definition ex_events : list event :=
@@ -103,9 +124,9 @@ Proof.
 Qed.
 
 Example C19_ex_unique_hyps :
-  NoDup (keys ex_pre) /\ fs_tags ex_pre = [] /\ NoDup (flat_map ev_id ex_events)
+  (forall n, fault_at ex_cfg FUnlink n = false) /\ NoDup (keys ex_pre) /\ fs_tags ex_pre = [] /\ NoDup (flat_map ev_id ex_events)
   /\ In (1, [97]) (finished (run ex_cfg ex_pre ex_events)).
-Proof. vm_compute. repeat split; repeat constructor; simpl; intuition discriminate. Qed.
+Proof. split; [reflexivity|]. vm_compute. repeat split; repeat constructor; simpl; intuition discriminate. Qed.
 
 (* Observation (not part of the property): after a successful work-dir -> output-dir move
    Close returns without clearing f.out; the next message hits the closed file, the tool
@@ -114,3 +135,39 @@ Example C19_ex_stale_handle :
   let s := run ex_cfg [] [Msg (1, [97]) 5 false; Hup; Msg (2, [98]) 6 false] in
   status_ s = Fatal /\ map fst (finished s) = [1] /\ out s = HStale (DWork, ex_name 0).
 Proof. vm_compute. repeat split. Qed.
+
+(* A failing fsync (the first one: Sync of the first full batch, gzip): the hypothesis of
+   C19_no_fin_after_failed_call is met, nothing is ever finished, the logger exits fatally;
+   the same when the gzip member cannot be completed; a plain write of message 2 that fails
+   after one byte leaves that byte in the file and message 2 unfinished (message 1 was
+   synced and finished when the file was opened). *)
+Example C19_ex_failed_fsync :
+  let s := run (ex_cfg_f FFsync 1) ex_pre ex_events in
+  (exists p q, trace s = p ++ OFail FFsync (DWork, ex_name 1) :: q) /\ finished s = [] /\ status_ s = Fatal.
+Proof.
+  split; [|vm_compute; split; reflexivity].
+  exists (firstn 2 (trace (run (ex_cfg_f FFsync 1) ex_pre ex_events))), (skipn 3 (trace (run (ex_cfg_f FFsync 1) ex_pre ex_events))).
+  vm_compute. reflexivity.
+Qed.
+
+Example C19_ex_failed_gzip_close :
+  let s := run (ex_cfg_f FGzClose 1) ex_pre ex_events in
+  finished s = [] /\ status_ s = Fatal /\ fins (trace s) = [].
+Proof. vm_compute. repeat split. Qed.
+
+Example C19_ex_failed_plain_write :
+  let c := mkCfg false 0 0 false false 2 ex_fmt (fun _ => []) (fun w n => fkind_eqb w FWrite && N.eqb n 2) (fun _ => 1%nat) in
+  let s := run c [] ex_events in
+  map fst (finished s) = [1] /\ status_ s = Fatal /\
+  exists f, lookup (fs s) (DOut, ex_name 0) = Some f /\ flat (content f) = [97;10;98].
+Proof. vm_compute. repeat split. eexists. split; reflexivity. Qed.
+
+(* A failing unlink(2) in the work-dir -> output-dir hand-off: link(2) succeeded, the logger
+   exits fatally, the (one) file keeps both names -- why C19_exactly_one_file assumes that
+   this unlink does not fail.  Nothing is lost: message 1 is durable under both. *)
+Example C19_ex_two_names_after_failed_unlink :
+  let s := run (ex_cfg_f FUnlink 1) [] [Msg (1, [97]) 5 false; Hup] in
+  status_ s = Fatal /\ map fst (finished s) = [1] /\
+  exists f, lookup (fs s) (DWork, ex_name 0) = Some f /\ lookup (fs s) (DOut, ex_name 0) = Some f
+            /\ In (line (1, [97])) (f_dur f).
+Proof. vm_compute. repeat split. eexists. repeat split. left. reflexivity. Qed.
